@@ -115,3 +115,26 @@ def ifexp_facts(node) -> List[Tuple[ast.AST, bool]]:
                 out += conjuncts(par.test, False)
         cur, par = par, parent(par)
     return out
+
+
+def inline_locals(e, defs: Defs, keep=(), depth: int = 3):
+    """copy of expression `e` in which every load of a single-definition local (not a parameter, not in `keep`) is replaced by the
+    expression it was assigned:  h = f(x); y = a * h   is read as   y = a * f(x).   Positions are kept (copy_location)."""
+    import copy
+
+    class R(ast.NodeTransformer):
+        def __init__(self, d):
+            self.d = d
+
+        def visit_Name(self, n):
+            if not isinstance(n.ctx, ast.Load) or n.id in keep or n.id in defs.params or self.d <= 0:
+                return n
+            vals = defs.defs.get(n.id, [])
+            if len(vals) != 1 or not isinstance(vals[0], ast.expr) or any(isinstance(x, ast.Name) and x.id == n.id for x in ast.walk(vals[0])):
+                return n
+            sites = defs.def_sites.get(n.id, [])
+            if sites and not isinstance(sites[0], ast.Assign):
+                return n
+            new = R(self.d - 1).visit(copy.deepcopy(vals[0]))
+            return ast.copy_location(new, n) if hasattr(n, "lineno") else new
+    return R(depth).visit(copy.deepcopy(e))
